@@ -1,6 +1,8 @@
 (** Runner entry point for the C05 correspondence: [run_c05 args], first field = operation.
       esc   <e> <s>              escaped text (code points)
       slot  <c> <e> <s>          one template slot: ok:<value> or broken
+      slot0 <c> <e> <s>          the same slot read without libxml2's blank-text removal
+                                 (differs from slot exactly when the heuristic dropped a chunk)
       multi <ce> <s> <ce> <s> .. a template with several slots, results joined by a bar
       table <c> <e>              decision table entry and its witness
     <c> is a (attribute in double quotes) or t (element text); <e> is 0 (no escaping),
@@ -12,6 +14,7 @@ From V.model Require Import Escape.
 
 Definition op_esc   : str := [101; 115; 99]%N.
 Definition op_slot  : str := [115; 108; 111; 116]%N.
+Definition op_slot0 : str := [115; 108; 111; 116; 48]%N.
 Definition op_multi : str := [109; 117; 108; 116; 105]%N.
 Definition op_table : str := [116; 97; 98; 108; 101]%N.
 Definition w_broken : str := [98; 114; 111; 107; 101; 110]%N.
@@ -35,6 +38,14 @@ Definition show_slot (r : slot_result) : str :=
   match r with Got v => w_ok ++ show_str v | Broken => w_broken end.
 
 Definition run_slot (cx : ctx) (e : esc) (s : str) : str := show_slot (lex_slot cx (apply_esc e s)).
+
+(** the conformant reading of the same slot *)
+Definition lex_slot_conf (cx : ctx) (payload : str) : slot_result :=
+  match cx with
+  | AttrDq => lex_slot AttrDq payload
+  | Text => match lex_text_conf payload with OneText v => Got v | BrokenText => Broken end
+  end.
+Definition run_slot0 (cx : ctx) (e : esc) (s : str) : str := show_slot (lex_slot_conf cx (apply_esc e s)).
 
 Fixpoint run_multi (l : list str) : option (list str) :=
   match l with
@@ -67,6 +78,11 @@ Definition run_c05 (args : list str) : str :=
           if str_eqb op op_slot then
             match parse_ctx c, parse_esc e with
             | Some cx, Some ee => run_slot cx ee s
+            | _, _ => w_badcase
+            end
+          else if str_eqb op op_slot0 then
+            match parse_ctx c, parse_esc e with
+            | Some cx, Some ee => run_slot0 cx ee s
             | _, _ => w_badcase
             end
           else w_badcase
